@@ -202,10 +202,27 @@ func funcValues(p *an.Prog, v ssa.Value, depth int) []*ssa.Function {
 		}
 		return out
 	case *ssa.UnOp:
-		if al, ok := x.X.(*ssa.Alloc); ok && x.Op == token.MUL {
-			return cellFuncValues(p, al, depth+1)
+		if x.Op != token.MUL {
+			return nil
 		}
-		return nil
+		var vals []ssa.Value
+		switch a := x.X.(type) {
+		case *ssa.Alloc:
+			return cellFuncValues(p, a, depth+1)
+		case *ssa.FieldAddr:
+			// the function-typed column of a literal table (route table): every row's function
+			vals, _ = rowFieldValues(p, a.X, a.Field, nil)
+		case *ssa.IndexAddr:
+			// an element of a literal table of function values (a list of middlewares)
+			vals, _ = rowValues(p, a, nil)
+		}
+		return funcValuesAll(p, vals, depth+1)
+	case *ssa.Field:
+		vals, _ := rowFieldValues(p, x.X, x.Field, nil)
+		return funcValuesAll(p, vals, depth+1)
+	case *ssa.Index:
+		vals, _ := rowValues(p, x, nil)
+		return funcValuesAll(p, vals, depth+1)
 	case *ssa.Call:
 		g := x.Common().StaticCallee()
 		if g == nil || !p.InRepo(g) || g.Signature.Results().Len() != 1 {
@@ -224,6 +241,19 @@ func funcValues(p *an.Prog, v ssa.Value, depth int) []*ssa.Function {
 		return out
 	}
 	return nil
+}
+
+// funcValuesAll: every value must resolve.
+func funcValuesAll(p *an.Prog, vals []ssa.Value, depth int) []*ssa.Function {
+	var out []*ssa.Function
+	for _, v := range vals {
+		fs := funcValues(p, v, depth)
+		if len(fs) == 0 {
+			return nil
+		}
+		out = append(out, fs...)
+	}
+	return out
 }
 
 // cellFuncValues: the functions a local variable can hold — every value stored into it must resolve.
